@@ -2170,6 +2170,8 @@ class Ev:
             return Sym("collect", vkey(args[0]))
         if last == "from_vec" and len(args) == 1 and isinstance(args[0], (Coll, Tup)):
             return args[0]
+        if last == "from_shape_vec" and len(args) == 2 and isinstance(args[0], Tup) and isinstance(args[1], Coll) and "ndarray" in d:
+            return Sym("ctor", "Ok", Sym("reshaped", vkey(args[1]), vkey(args[0])))          # Array::from_shape_vec(shape, v) = from_vec(v) reshaped row-major (Err only if the count differs)
         if last in ("zeros", "ones") and "ndarray" in d and len(args) == 1:
             shape = args[0].items if isinstance(args[0], Tup) else [args[0]]
             self.zero_shapes.append((last, tuple(vkey(x) for x in shape)))
@@ -2473,6 +2475,17 @@ class Ev:
                     self.bind(f.params[0], recv.fn(idx), env2)
                     g_ = self.collapse(self.eval(f.body, env2, depth))
                     return g_.items if isinstance(g_, Tup) else None
+                # `xs.flat_map(|x| ys.map(|y| f(x, y)))`: for every x, every y — the pairs of `xs.cartesian_product(ys)` mapped through f, x outer and y inner
+                env_p = dict(f.env)
+                self.bind(f.params[0], recv.fn(Poly.atom("i")), env_p)
+                try:
+                    inner_ = self.eval(f.body, env_p, depth)
+                except Unsupported:
+                    inner_ = None
+                if isinstance(inner_, Coll):
+                    inner_ = inner_.seq
+                if isinstance(inner_, Seq) and not inner_.enumerated and not key_mentions(vkey(inner_.src), "i"):
+                    return Seq(Sym("product", vkey(recv.src), vkey(inner_.src)), lambda idx, inner_=inner_: inner_.fn(Poly.atom("j")))
                 if group(Poly.atom("i")) is not None:
                     nsrc = Sym("flat_map", vkey(recv.src), tuple(vkey(x_) for x_ in group(Poly.atom("i"))))
                     sq = Seq(nsrc, lambda idx, nsrc=nsrc: Sym("at", vkey(nsrc), idx.key()))
